@@ -27,6 +27,7 @@ LEVEL_NOTE = ("Only the target shells are required to terminate (grandchildren o
               "1 s WaitDelay + margin; the next-build clause is checked at the CLI only (its proof is the composition of C10, C07 and C01, owned by "
               "other groups).")
 TECHNIQUE = "Lean 4 proofs about the cancellation logic of an executable LTS + trace inclusion with external cancel + signal runs of the real CLI"
+PROP_MODULES = ["GrogModel.Props.C18", "GrogModel.Props.ComposeStores"]
 OBLIGATIONS = [
     "Grog.C18.interrupt_any_time",
     "Grog.C18.no_start_after_cancel",
@@ -38,6 +39,7 @@ OBLIGATIONS = [
     "Grog.C18.return_cancels_all",
     "Grog.C18.exit_nonzero",
     "Grog.C18.interrupted_walk_finishes",
+    "Grog.Compose.next_build_ok",
 ]
 ASSUMPTIONS = [
     "exec.CommandContext kills the target shell on cancellation and does not start one under a cancelled context (Go runtime, trusted)",
